@@ -845,6 +845,10 @@ def main():
                 else:
                     mon["nonnegative_finite"] += int(math.isfinite(v))
 
+    ndev = agg["dev"] + bigagg["dev"]
+    if ndev:
+        print(f"DEVIATION (not a violation): {ndev} replayed calls returned a subset that satisfies the property text but is "
+              f"not the one the code-shaped specification computes, e.g. {dev_sample}", flush=True)
     ck.assumptions += [
         "numpy float64 arithmetic is IEEE-754; np.percentile(method='linear') computes floor((N-1)*q) and a + (b-a)*g "
         "(resp. b - (b-a)*(1-g) for g >= 0.5) as read in numpy/lib/_function_base_impl.py (_lerp), so equal neighbours give an exact threshold",
